@@ -110,13 +110,26 @@ theorem no_lost_wakeup {s : St} (h : Reachable s) (t : Tid) (ht : t ∈ s.waiter
     ∃ u, (s.loc u).pc = .n0 ∨ (s.loc u).pc = .n1 :=
   Rpyc.Conc.Serve.no_lost_wakeup h t ht
 
-/-- **No deadlock while data is pending.** If the channel holds unread data and some thread is inside a
-call or a serving loop, then some thread other than a sleeping background thread has an enabled step
-(nobody needs a timeout to get going). -/
+/-- **No deadlock while data is pending (weak form).** If the channel holds unread data and some thread is inside a
+call or a serving loop, then some thread other than a sleeping background thread has an enabled step (nobody
+needs a timeout to get going).  On its own this is weak: a polling thread between two polls, or a background
+thread at its loop test, satisfies it trivially.  The content is `waiter_woken_with_data` below: for a thread
+asleep on the condition the enabled thread is one that is on its way to wake it. -/
 theorem no_deadlock_with_data {s : St} (h : Reachable s) (hc : s.chan ≠ []) (t : Tid)
     (ht : (s.loc t).pc ≠ .idle) (hb : (s.loc t).pc ≠ .bS) :
     ∃ u, enabled s u = true ∧ (s.loc u).pc ≠ .bS :=
   no_deadlock_with_data_strong h hc t ht hb
+
+/-- **No thread sleeps through a wake-up while data is pending.**  If data is unread (or the stream has ended, or
+the connection is closed) and thread `t` is in the condition's wait-set, then an ENABLED thread exists that holds
+the receive lock (it is in the receive region, will read — `poll` returns at once — release and notify), or is a
+pending notifier at `n0`/`n1`, or holds the condition's lock that this notifier is waiting for.  Spinning pollers and
+idle background threads do not count. -/
+theorem waiter_woken_with_data {s : St} (h : Reachable s) (hc : s.chan ≠ [] ∨ s.eof = true ∨ s.closed = true)
+    (t : Tid) (ht : t ∈ s.waiters) :
+    ∃ u, enabled s u = true ∧ ((s.loc u).pc.holdsRecv = true ∨ (s.loc u).pc = .n0 ∨ (s.loc u).pc = .n1 ∨
+      (s.loc u).pc.holdsCond = true) :=
+  waiter_has_waker h hc t ht
 
 /-- **Nobody sleeps through the end of the stream.** Once the peer has closed the stream (or the connection
 has been closed), a thread inside a call or a serving loop is never stuck: some thread other than a sleeping
